@@ -166,6 +166,22 @@ def run_paths(case):
     d = copy.deepcopy(doc)
     d["paths"] = {k: dict(reversed(list(v.items()))) for k, v in doc.get("paths", {}).items()}
     variants.append(("methods-reversed", d))
+    # the order in which an operation lists its responses
+    d = copy.deepcopy(doc)
+    changed = False
+    for k, v in d.get("paths", {}).items():
+        for m, o in v.items():
+            if isinstance(o, dict) and isinstance(o.get("responses"), dict) and len(o["responses"]) > 1:
+                o["responses"] = dict(reversed(list(o["responses"].items())))
+                changed = True
+    if changed:
+        variants.append(("responses-reversed", d))
+        d = copy.deepcopy(d)
+        for k, v in d.get("paths", {}).items():
+            for m, o in v.items():
+                if isinstance(o, dict) and isinstance(o.get("responses"), dict):
+                    o["responses"] = dict(sorted(o["responses"].items()))
+        variants.append(("responses-sorted", d))
     # schema order reversed + property order reversed
     if (doc.get("components") or {}).get("schemas"):
         d = copy.deepcopy(doc)
